@@ -44,3 +44,31 @@ Definition jstep (t : jtable) (a : jact) : jtable :=
   | ARestart => t                       (* completed jobs are reloaded from their status files *)
   end.
 Definition jrun (l : list jact) : jtable := fold_left jstep l [].
+
+(* ---------- the spool: jobstorage/serializer.go MarshalStream / UnmarshalStream ---------- *)
+(* items are handed to n workers in turn (a counter that wraps); the workers' outputs are merged by reading one
+   item from every still-open worker in turn until a whole turn finds nothing *)
+Section RoundRobin.
+  Context {X : Type}.
+  Definition app_at (c : nat) (x : X) (ws : list (list X)) : list (list X) :=
+    map (fun kw => if Nat.eqb (fst kw) c then snd kw ++ [x] else snd kw) (combine (seq 0 (List.length ws)) ws).
+  (* reader: item to worker c, then c := c+1, wrapping at n *)
+  Fixpoint deal_from (n c : nat) (l : list X) (ws : list (list X)) : list (list X) :=
+    match l with
+    | [] => ws
+    | x :: r => deal_from n (if Nat.eqb (S c) n then 0 else S c) r (app_at c x ws)
+    end.
+  Definition deal (n : nat) (l : list X) : list (list X) := deal_from n 0 l (repeat [] n).
+
+  Definition head_list (w : list X) : list X := match w with [] => [] | x :: _ => [x] end.
+  (* merger: one turn takes the next item of every worker that still has one; stop after an empty turn *)
+  Fixpoint merge (fuel : nat) (ws : list (list X)) : list X :=
+    match fuel with
+    | 0 => []
+    | S f => match flat_map head_list ws with
+             | [] => []
+             | hs => hs ++ merge f (map (@tl X) ws)
+             end
+    end.
+
+End RoundRobin.
